@@ -115,8 +115,18 @@ def make_case(r, thorough, i):
     idx = np.arange(nn) if ids is None else np.array([list(p.n_oper_identifiers).index(s) for s in ids])
     S = select_spectrum(Sfull, idx, shape)
     opt = OPTS[int(r.integers(0, len(OPTS)))]
+    # time unit: durations x lam, amplitudes and frequencies / lam, spectrum / lam (infidelity unchanged).
+    # In extreme units all spacings of the NON-uniform grid are tiny / huge in absolute value.
+    unit = 1.0
+    if i % 6 == 5:
+        unit = float(10.0 ** r.choice([-9, -6, 6, 9]))
+        p = ff.PulseSequence(list(zip(p.c_opers, p.c_coeffs / unit, p.c_oper_identifiers)),
+                             list(zip(p.n_opers, p.n_coeffs, p.n_oper_identifiers)), p.dt * unit, basis=p.basis)
+        om = om / unit
+        Sfull = Sfull / unit
+        S = S / unit
     tags.update(grid=gk, shape=shape, ids='all' if ids is None else ('subset' if len(ids) < nn else 'perm'),
-                pars=opt[0], use_ff=opt[1])
+                pars=opt[0], use_ff=opt[1], unit='%g' % unit)
     return dict(p=p, om=om, S=S, Sfull=Sfull, ids=ids, idx=idx, shape=shape, opt=opt, tags=tags)
 
 
@@ -209,6 +219,23 @@ def predicates_total(c):
         isl = infid_full[idx] if shape < 3 else infid_full[idx[:, None], idx]
         if np.abs(isl - infid).max() > 1e-12 * max(iscale, np.abs(infid_full).max()):
             bad.append(('slices', 'c08-slices', 'infidelity selection is not the slice of the full result'))
+        # cache history: generalized FF cached on another grid of the SAME length, then a fidelity-type call on this
+        # grid, then decay amplitudes / cumulant function / infidelity on the same object == fresh object
+        om1 = np.sort(np.abs(om) * 1.7 + (np.abs(om).max() or 1.0) * np.linspace(0.05, 0.4, len(om)))
+        used = gen.fresh(p)
+        used.cache_filter_function(om1, which='generalized')
+        used.get_filter_function(om)
+        Gu = numeric.calculate_decay_amplitudes(used, S, om, n_oper_identifiers=ids)
+        if np.abs(Gu - ref).max() > 1e-12 * scale:
+            bad.append(('history', 'c08-history-stale-generalized-ff',
+                        'decay amplitudes of a pulse object whose generalized filter function was cached for another grid of the '
+                        'same length differ from a fresh pulse: rel %.3g' % (np.abs(Gu - ref).max() / scale)))
+        else:
+            Ku = numeric.calculate_cumulant_function(used, S, om, n_oper_identifiers=ids)
+            Iu = ff.infidelity(used, S, om, n_oper_identifiers=ids)
+            if np.abs(Ku - K).max() > 1e-12 * max(np.abs(K).max(), 1e-300) or np.abs(Iu - infid).max() > 1e-12 * iscale:
+                bad.append(('history', 'c08-history-stale-generalized-ff',
+                            'cumulant function / infidelity of a used pulse object differ from a fresh pulse'))
         # non-negativity (spectra are positive semidefinite by construction, grid increasing)
         if infid.sum() < -1e-12 * iscale or (shape < 3 and (infid < -1e-12 * iscale).any()):
             bad.append(('nonneg', 'c08-nonneg', 'negative infidelity %r for a positive-semidefinite spectrum' % (infid,)))
@@ -407,8 +434,8 @@ def run(ctx):
         out = impl_outputs_total(c, with_K=c['p'].d <= 3)
         cases.append(('t', c, out, inp))
         t = c['tags']
-        key = 'total/%s/%s/%s/shape%d/%s/%s/pars=%s/ff=%s' % (t['basis'], t['noise'], t['grid'], t['shape'], t['ids'], t['amp'],
-                                                          t['pars'], t['use_ff'])
+        key = 'total/%s/%s/%s/shape%d/%s/%s/pars=%s/ff=%s/unit=%s' % (t['basis'], t['noise'], t['grid'], t['shape'], t['ids'], t['amp'],
+                                                                  t['pars'], t['use_ff'], t['unit'])
         if np.abs(out['G']).max() > 0:
             classes[key] = classes.get(key, 0) + 1
         if len(samples) < 4:
